@@ -130,7 +130,10 @@ ToRender(n, cf) ==
                [] nm = "span" -> NE(Node("Container", sty, cs))
                [] nm = "a" -> IF HasAttr(n, "href")
                               THEN (IF \E i \in 1..Len(cs) : ~ShallowEmpty(cs[i])
-                                    THEN << Node("Link", sty, cs) @@ [href |-> n.a.href] >> ELSE <<>>)
+                                    THEN << Node("Link", sty, cs) @@ [href |-> n.a.href] >>
+                                    ELSE IF \E i \in 1..Len(cs) : cs[i].kind = "Text" /\ cs[i].s # <<>>
+                                    THEN << Node("Container", sty, cs) >>      \* white space kept, no link
+                                    ELSE <<>>)
                               ELSE << Node("Container", sty, cs) >>
                [] nm \in {"em", "i", "ins"} -> << Node("Em", sty, cs) >>
                [] nm = "strong" -> << Node("Strong", sty, cs) >>
